@@ -329,6 +329,8 @@ class SI:
     def __and__(s, o):
         if isinstance(o, int) and o >= 0 and (o & (o + 1)) == 0:     # x & (2**k - 1)
             return SI(z3.simplify(s.e % (o + 1)), ub=o.bit_length())
+        if isinstance(o, int) and o > 0 and (o & (o - 1)) == 0:      # x & 2**k: one bit (two's complement, also for negative x)
+            return SI(z3.simplify(((s.e / o) % 2) * o), ub=o.bit_length())
         return s._bv(o, lambda a, b: a & b)
 
     __rand__ = __and__
@@ -359,6 +361,15 @@ class SI:
     __ror__ = __or__
 
     def __xor__(s, o):
+        if isinstance(o, int) and not isinstance(o, bool) and o >= 0:
+            # x ^ constant, bit by bit in linear arithmetic (x must be known to lie in [0, 2**w))
+            w = max(8, o.bit_length(), s.ub or 0)
+            if _cur.holds(SB(z3.And(s.e >= 0, s.e < 2 ** w))):
+                t = z3.IntVal(0)
+                for i in range(w):
+                    b = (s.e / (2 ** i)) % 2
+                    t = t + (((1 - b) if (o >> i) & 1 else b) * (2 ** i))
+                return SI(z3.simplify(t), ub=w)
         return s._bv(o, lambda a, b: a ^ b)
 
     __rxor__ = __xor__
